@@ -97,6 +97,10 @@ def collect(ctx, sub="c01", extra=()):
             d["stages"][r[2]] = r[3]
         elif r[1] == "GENV":
             d["genv"] = r[2]
+        elif r[1] == "GOENV":
+            d["goenv"] = r[2]
+        elif r[1] == "AANF":
+            d["aanf"] = r[2]
         elif r[1] == "SRCPLAIN":
             d["srcplain"] = r[2] if len(r) > 2 else ""
         elif r[1] == "SRCERR":
